@@ -54,7 +54,7 @@ def plan_c01(tier, seed, index):
                     bounds="T=%d; finality, final output, inputs (strictly increasing), outputs (u64), targets (0 or [2,20)) symbolic; node starts at 20 in a 72-byte buffer (1-byte deltas; other widths by c01_delta_roundtrip)" % t))
     P.append(twin("c01_node::c01_node_codec_t1_twin_must_fail", "vacuity twin of the codec harness", timeout=900, mem_gb=12))
     if tier == "thorough":
-        P.append(ob("c01_node::c01_node_codec_t3", "as above with 3 transitions", timeout=3000, mem_gb=16, core=False,
+        P.append(ob("c01_node::c01_node_codec_t3", "as above with 3 transitions", timeout=2400, mem_gb=16, core=False,
                     functions=NODE_ENC + NODE_DEC, bounds="T=3"))
     # the current builder's bytes, read back symbolically (shared with C02)
     gens = generated(index, "C02")
@@ -109,14 +109,14 @@ def plan_c07(tier, seed, index):
                 timeout=2400, mem_gb=12, functions=NODE_ENC, bounds="T=1, cap 1..8", core=False,
                 unwindset=[["write_all", 9], ["CapSink.*write|ArraySink.*write", 9], ["pack_uint_in", 9], ["encoder_capped", 25]]))
     if tier == "thorough":
-        P.append(ob("c07_sink::c07_encoder_capped_t2", "as above, 2 transitions", timeout=3000, mem_gb=16, functions=NODE_ENC, bounds="T=2", core=False,
+        P.append(ob("c07_sink::c07_encoder_capped_t2", "as above, 2 transitions", timeout=2400, mem_gb=16, functions=NODE_ENC, bounds="T=2", core=False,
                     unwindset=[["write_all", 9], ["CapSink.*write|ArraySink.*write", 9], ["pack_uint_in", 9], ["encoder_capped", 25]]))
     P.append(ob("c07_sink::c07_primitives_le_bytes", "io_write_u64_le / io_write_u32_le / pack_uint_in hand write_all exactly the little-endian bytes",
                 timeout=900, mem_gb=8, functions=["fst::bytes::io_write_u64_le", "fst::bytes::io_write_u32_le", "fst::bytes::pack_uint_in"],
                 bounds="all u64, all legal widths", covers_required=False))
     if tier == "thorough":
         P.append(ob("c07_sink::c07_primitives_u32", "io_write_u32_le through the chunky sink: sink receives exactly the LE bytes; count and checksum agree",
-                    timeout=3600, mem_gb=16, unwindset=us, functions=["fst::bytes::io_write_u32_le"], bounds="all u32, every schedule", core=False))
+                    timeout=2400, mem_gb=16, unwindset=us, functions=["fst::bytes::io_write_u32_le"], bounds="all u32, every schedule", core=False))
     P.append(twin("c07_sink::c07_twin_must_fail", "vacuity twin: a short write is possible", timeout=900, mem_gb=8, unwindset=us))
     return P
 
@@ -134,14 +134,14 @@ def plan_c08(tier, seed, index):
                 timeout=1500, mem_gb=12, functions=CRC_FNS, core=False))
     if tier == "thorough":
         P.append(ob("c08_crc::c08_block16_affine", "the same in the three-operand form", bounds="all triples",
-                    timeout=3000, mem_gb=12, functions=CRC_FNS, core=False))
+                    timeout=2400, mem_gb=12, functions=CRC_FNS, core=False))
     P.append(ob("c08_crc::c08_block16_basis_agree", "block step == 16 reference byte steps at the origin and on all 160 unit vectors", bounds="161 points, symbolic index",
                 timeout=1200, mem_gb=8, functions=CRC_FNS))
     if tier == "thorough":
         P.append(ob("c08_crc::c08_reference16_affine", "reference-only lemma: 16 bitwise byte steps are GF(2)-affine", bounds="all triples",
-                    timeout=3000, mem_gb=12, functions=["harness-side reference"], core=False))
+                    timeout=2400, mem_gb=12, functions=["harness-side reference"], core=False))
         P.append(ob("c08_crc::c08_chunking_17", "17 bytes in one call == 16+1 == 1+16 (real code on both sides)", bounds="all states, all 17-byte strings",
-                    timeout=3000, mem_gb=12, functions=CRC_FNS, core=False))
+                    timeout=2400, mem_gb=12, functions=CRC_FNS, core=False))
     P.append(ob("c08_crc::c08_masking", "masked() == rotr(15) + 0xA282EAD8, injective", bounds="all u32", **light))
     P.append(ob("c08_crc::c08_tables", "TABLE/TABLE16 are the CRC-32C tables for polynomial 0x82F63B78 (every entry, by recurrence)", bounds="all i<256, j<16", **light))
     P.append(ob("c08_crc::c08_step_injective", "update is injective in the byte (fixed state) and in the state (fixed byte): a single altered byte changes the final checksum", bounds="all pairs", **light))
@@ -158,10 +158,10 @@ def plan_c08(tier, seed, index):
     P.append(twin("c08_crc::c08_twin_must_fail", "vacuity twin", timeout=600, mem_gb=8))
     if tier == "thorough":
         P.append(ob("c08_file::c08_builder_trailer_empty", "real builder, empty FST, real CRC: trailer == masked reference CRC of the rest; verifies",
-                    timeout=3600, mem_gb=28, functions=["fst::raw::build::Builder::{new_type,into_inner,compile}", "fst::raw::Fst::{new,verify}"] + CRC_FNS,
+                    timeout=2400, mem_gb=28, functions=["fst::raw::build::Builder::{new_type,into_inner,compile}", "fst::raw::Fst::{new,verify}"] + CRC_FNS,
                     bounds="every type value", core=False))
         P.append(ob("c08_file::c08_mutation_36", "any 36-byte file that opens and verifies, with one byte altered, never opens+verifies",
-                    timeout=3600, mem_gb=28, functions=["fst::raw::Fst::{new,verify}"] + CRC_FNS, bounds="N=36, every position, every replacement", core=False))
+                    timeout=2400, mem_gb=28, functions=["fst::raw::Fst::{new,verify}"] + CRC_FNS, bounds="N=36, every position, every replacement", core=False))
     return P
 
 
@@ -172,12 +172,12 @@ def plan_c09(tier, seed, index):
                     "real encoder output for a fully symbolic node with %d transition(s), decoded by the independent layout decoder: extent, finality, count, final output, every transition, form selection" % t,
                     timeout=cap, mem_gb=12, functions=NODE_ENC, bounds="T=%d (as C01 codec harness)" % t))
     if tier == "thorough":
-        P.append(ob("c09_layout::c09_layout_t3", "as above, 3 transitions", timeout=3000, mem_gb=16, functions=NODE_ENC, bounds="T=3", core=False))
+        P.append(ob("c09_layout::c09_layout_t3", "as above, 3 transitions", timeout=2400, mem_gb=16, functions=NODE_ENC, bounds="T=3", core=False))
     P.append(ob("c09_layout::c09_header", "real Builder::new_type(ty): the 16 header bytes are version 3 and the requested type",
                 timeout=900, mem_gb=8, functions=["fst::raw::build::Builder::new_type"], bounds="every type value", covers_required=False))
     if tier == "thorough":
         P.append(ob("c09_layout::c09_header_footer_empty", "real Builder::new_type(ty)+into_inner: header version 3, type, root node bytes, key count, root address",
-                    timeout=3600, mem_gb=40, functions=["fst::raw::build::Builder::{new_type,into_inner,compile}"], bounds="every type value; empty FST",
+                    timeout=2400, mem_gb=40, functions=["fst::raw::build::Builder::{new_type,into_inner,compile}"], bounds="every type value; empty FST",
                     core=False))
     P.append(ob("c01_pack::c01_pack_roundtrip", "integer packing: round trip for every u64 and width; pack_size is the documented minimal width",
                 timeout=300, mem_gb=4, functions=["fst::bytes::pack_size", "fst::bytes::pack_uint_in", "fst::bytes::unpack_uint"], bounds="all u64"))
@@ -219,7 +219,7 @@ def plan_c11(tier, seed, index):
     P.append(ob("c11_fault::c11_encoder_t1", "node encoder over the faulty sink, symbolic 1-transition node: Err iff the fault fired, no panic",
                 functions=NODE_ENC, bounds="T=1, every failing write call", timeout=2400, mem_gb=16, unwindset=[["write_all", 3]]))
     if tier == "thorough":
-        P.append(ob("c11_fault::c11_encoder_t2", "as above, 2 transitions", functions=NODE_ENC, bounds="T=2", timeout=3000, mem_gb=24, core=False,
+        P.append(ob("c11_fault::c11_encoder_t2", "as above, 2 transitions", functions=NODE_ENC, bounds="T=2", timeout=2400, mem_gb=24, core=False,
                     unwindset=[["write_all", 3]]))
     P.append(ob("c11_fault::c11_builder_new", "Builder::new over the faulty sink: Err(Io) iff one of the two header writes failed",
                 functions=["fst::raw::build::Builder::new_type", "fst::error::Error::from(io::Error)"], bounds="every failing call index, both kinds",
@@ -227,7 +227,7 @@ def plan_c11(tier, seed, index):
     if tier == "thorough":
       P.append(ob("c11_fault::c11_builder_empty", "Builder::new + into_inner (empty FST) over the faulty sink incl. the final flush: Err(Io) iff a call failed; Ok only if all 39 bytes were accepted and flushed",
                 functions=["fst::raw::build::Builder::{new_type,into_inner,compile}", "fst::error::Error::from(io::Error)"],
-                bounds="every failing call index 0..8 (8 writes + flush), both kinds", timeout=3600, mem_gb=40, core=False,
+                bounds="every failing call index 0..8 (8 writes + flush), both kinds", timeout=2400, mem_gb=40, core=False,
                 unwindset=[["crc32c_slice16", 0, 1], ["crc32c_slice16", 1, 10], ["write_all", 3]]))
     P.append(twin("c11_fault::c11_twin_must_fail", "vacuity twin: a fault can fire", timeout=600, mem_gb=8))
     return P
@@ -244,8 +244,8 @@ def plan_c12(tier, seed, index):
     P.append(ob("c12_registry::c12_step_1x2_t0", "real Registry 1x2 (shipped column count, MRU swap), transition-less nodes: nothing is evicted by two inserts, so every inserted node is found with its own address",
                 timeout=2400, mem_gb=24, functions=fns, bounds="3 symbolic nodes, T=0", core=False))
     if tier == "thorough":
-        P.append(ob("c12_registry::c12_step_1x2_t1", "1x2 with one-transition nodes", timeout=3600, mem_gb=40, functions=fns, bounds="T=1", core=False))
-        P.append(ob("c12_registry::c12_step_1x3_t0", "1x3 (promote path)", timeout=3600, mem_gb=40, functions=fns, bounds="T=0", core=False))
+        P.append(ob("c12_registry::c12_step_1x2_t1", "1x2 with one-transition nodes", timeout=2400, mem_gb=40, functions=fns, bounds="T=1", core=False))
+        P.append(ob("c12_registry::c12_step_1x3_t0", "1x3 (promote path)", timeout=2400, mem_gb=40, functions=fns, bounds="T=0", core=False))
     P.append(twin("c12_registry::c12_twin_must_fail", "vacuity twin: a hit is possible", timeout=600, mem_gb=8))
     return P
 
@@ -253,7 +253,7 @@ def plan_c12(tier, seed, index):
 def plan_c16(tier, seed, index):
     P = []
     for h in generated(index, "C16"):
-        P.append(ob(h["harness"], h["desc"], timeout=3600, mem_gb=20, unwindset=h["unwindset"],
+        P.append(ob(h["harness"], h["desc"], timeout=2400, mem_gb=20, unwindset=h["unwindset"],
                     functions=["fst::raw::FstRef::get_key_into", "fst::raw::Fst::get_key_into"] + NODE_DEC, artifact=h["artifact"],
                     bounds="every u64 query value; per-loop unwindset %s" % h["unwindset"], core=(h["artifact"] in ("mono4", "mono_empty0"))))
     return P
@@ -293,8 +293,8 @@ def plan_c20(tier, seed, index):
     P.append(ob("c10_open::c20_map_set_total_40", "the same through Map::new and Set::new", timeout=2400, mem_gb=12, functions=fns, bounds="N=40", full_checks=True,
                 covers_required=False, core=False))
     if tier == "thorough":
-        P.append(ob("c10_open::c20_open_total_48", "as above, N=48", timeout=3600, mem_gb=16, functions=fns, bounds="N=48", full_checks=True, core=False))
-        P.append(ob("c10_open::c20_open_total_64", "as above, N=64", timeout=3600, mem_gb=24, functions=fns, bounds="N=64", full_checks=True, core=False))
+        P.append(ob("c10_open::c20_open_total_48", "as above, N=48", timeout=2400, mem_gb=16, functions=fns, bounds="N=48", full_checks=True, core=False))
+        P.append(ob("c10_open::c20_open_total_64", "as above, N=64", timeout=2400, mem_gb=24, functions=fns, bounds="N=64", full_checks=True, core=False))
     P.append(twin("c10_open::c20_twin_must_fail", "vacuity twin: some input opens", timeout=1500, mem_gb=12))
     return P
 
